@@ -23,10 +23,13 @@ for p in props:
         "level_claimed": {
             "category": "exploration",
             "text": getattr(m, "LEVEL_TEXT", None) or (
-                "Runtime monitoring: the real pyrepseq functions are executed on generated, exhaustive-small and hostile "
-                "workloads; a boundary recorder observes every call and an oracle monitor (independent reference model) "
-                "decides each observed execution. Held = held on the executions observed, exhaustive only up to the "
-                "bounds listed in the evidence file; three-valued verdict (violated / held / inconclusive)."),
+                "Exploration by runtime monitoring: the real pyrepseq functions are executed and every call is observed at its public "
+                "boundary (call event before, return/raise event after) and decided by an independent reference model. " + m.RULE +
+                " Bounded-exhaustive parts - quick: " + "; ".join(m.EXHAUSTIVE.get("quick", [])) + " - thorough: " +
+                "; ".join(m.EXHAUSTIVE.get("thorough", [])) + ". This is the right level because the property is a for-all-inputs "
+                "functional claim about pure-Python code: an oracle over many diverse executions (small scopes enumerated completely, "
+                "larger ones sampled, hostile classes forced and counted) is what a monitor can decide; the verdict is 'held on the "
+                "executions observed', three-valued (violated / held / inconclusive when a required event class was not observed)."),
             "design_ref": f"DESIGN.md section 4, {pid}",
         },
         "level_note": getattr(m, "LEVEL_NOTE", None) or "; ".join(getattr(m, "ASSUMPTIONS", [])) or "oracles in vmon/oracles.py are the trusted base",
